@@ -1120,6 +1120,10 @@ class RootAlias(ArrayExpr):
 
         from dask._task_spec import Alias
 
+        if isinstance(self.array, FinalizeComputeArray):
+            # a finalized array (a collection embedded in another task's
+            # arguments) is one task under its bare name, not a grid of blocks
+            return {self._name: Alias(self._name, self.array._name)}
         dsk = {}
         for idx in product(*(range(len(c)) for c in self.chunks)):
             out_key = (self._name,) + idx
